@@ -285,6 +285,12 @@ class FnAnalysis:
 
     # ------------------------------------------------------------------ simplification under facts
     def simp(self, t, facts):
+        sels = [f for f in facts if f[0] == "sel"]
+        if sels:
+            from .terms import rebuild
+            mp = {f[1]: f[2] for f in sels}
+            if any(x in mp for x in t.subterms()):
+                t = rebuild(t, mp)
         if t.op == "okelse":
             r, a, b = t.args
             if ("var", r, "Ok") in facts:
@@ -412,7 +418,8 @@ class FnAnalysis:
                  "result::Result::is_ok": ("Ok", "Err"), "result::Result::is_err": ("Err", "Ok")}.get(f)
             if m:
                 vs = ["None", "Some"] if m[0] in ("Some", "None") else ["Ok", "Err"]
-                base, names = self.norm_var(a[0] if a[0].op != "ref" else a[0], vs)
+                x = a[0].args[0] if a[0].op == "refval" else T.deref(a[0])
+                base, names = self.norm_var(x, vs)
                 want = m[0] if truth else m[1]
                 if base is not None:
                     out.add(("var", base, names[vs.index(want)]))
@@ -539,7 +546,7 @@ class FnAnalysis:
         if not self.blocks:
             return
         init = self._initial_state()
-        out_states = {}   # (pred, succ) -> State
+        out_states = self.out_states = {}   # (pred, succ) -> State
         changed = True
         rounds = 0
         entry_sig = {}
@@ -666,7 +673,7 @@ class FnAnalysis:
                             return None
                     if ("notvar", base, nm) in facts:
                         return None
-                    return facts | {("var", base, nm)}
+                    return self._select_phi(facts | {("var", base, nm)}, base, nm)
                 else:
                     if ("var", base, nm) in facts:
                         return None
@@ -674,6 +681,7 @@ class FnAnalysis:
                     out.add(("notvar", base, nm))
                     if len(vs) == 2:
                         out.add(("var", base, others[0]))
+                        return self._select_phi(frozenset(out), base, others[0])
                     return frozenset(out)
         if dty == "bool":
             truthv = bool(v) == taken
@@ -693,6 +701,31 @@ class FnAnalysis:
             if ("eq", d, v) in facts:
                 return None
             return facts | {("ne", d, v)}
+
+    def _select_phi(self, facts, base, vname):
+        """Correlated branches: `base` is a merge of values of which exactly one can be variant `vname`; learning that
+        base is `vname` identifies the edge the value came in on, so the value and that edge's facts are known."""
+        if base.op != "phi" or base not in self.phi_ops or base.args[0][0] != self.fid:
+            return facts
+        blk = base.args[0][1]
+        if any(blk in body for body in self.loops.values()):
+            return facts
+        ops = self.phi_ops[base]
+        compat = []
+        for p, v in ops.items():
+            if v.op == "agg" and v.args[0] == "adt" and v.args[3] is not None and v.args[3] != vname:
+                continue
+            compat.append((p, v))
+        if len(compat) != 1:
+            return facts
+        p, v = compat[0]
+        est = self.out_states.get((p, blk))
+        if est is None:
+            return facts
+        out = set(facts)
+        out.add(("sel", base, v))
+        out |= {f for f in est.facts if f[0] != "sel"}
+        return frozenset(out)
 
     def _variants_for_discr(self, x):
         ty = self.type_hint(x)
@@ -782,6 +815,20 @@ class FnAnalysis:
             return None
         st = State(self.exit_env[rbs[0]], self.exit_facts[rbs[0]])
         return self.read(st, (("L", 0), ()))
+
+    def reachable(self, a, b):
+        """is there a (feasible, non-cleanup) path of length >= 1 from block a to block b"""
+        seen = set()
+        st = [s for s in self.succs[a] if (a, s) in self.feasible]
+        while st:
+            x = st.pop()
+            if x == b:
+                return True
+            if x in seen:
+                continue
+            seen.add(x)
+            st.extend(s for s in self.succs[x] if (x, s) in self.feasible)
+        return False
 
     def ret_leaves(self, limit=4096):
         """Expand the returned value along the merges that produced it: list of (term, State) where State is the
@@ -922,6 +969,14 @@ class Program:
             if it.op == "call" and it.args[0] == "[T]::iter":
                 an._havoc_mut_args(st, site, t, args, None)
                 return T.call("slice::" + dq.split("::")[-1], (), [it.args[2][0], args[1]])
+        if dq in ("iter::Iterator::find", "iter::Iterator::find_map", "iter::Iterator::any", "iter::Iterator::all",
+                  "iter::Iterator::rfind", "iter::DoubleEndedIterator::rfind", "iter::Iterator::last", "iter::Iterator::nth",
+                  "iter::Iterator::count", "iter::Iterator::max_by_key", "iter::Iterator::min_by_key") and args and mut_idx == [0]:
+            # a search over an iterator whose state is a known value: pure function of (iterator state, closure)
+            it = an.read(st, arg_lvs[0]) if args[0].op == "ref" else None
+            if it is not None and self._closed_or_symbolic(it):
+                an._havoc_mut_args(st, site, t, args, None)
+                return T.call("iter::" + dq.split("::")[-1], (), [it] + [self._stabilise(an, st, a) for a in args[1:]])
         if mut_idx:
             an._havoc_mut_args(st, site, t, args, None)
             return T.fresh(site, "ret")
@@ -931,7 +986,15 @@ class Program:
         """a reference to a mutable local is replaced by a reference to its current value"""
         if a.op == "ref":
             return T.refval(an.read(st, (a.args[0], a.args[1])))
+        if a.op == "agg" and any(f.op == "ref" for f in a.args[4]):
+            return T.agg(a.args[0], a.args[1], a.args[2], a.args[3], [self._stabilise(an, st, f) for f in a.args[4]])
         return a
+
+    def _closed_or_symbolic(self, t):
+        for s in t.subterms():
+            if s.op in ("undef", "okelse"):
+                return False
+        return True
 
     def _closed(self, t):
         for s in t.subterms():
